@@ -69,6 +69,41 @@ Proof.
     rewrite IH by auto. now apply xof_absorb_app.
 Qed.
 
+(* ---- padding (ascon_xof_pad / ascon_xofa_pad) ------------------------------ *)
+
+Lemma upd_at_enc_zeros st : forall off n, fst (upd_at bf_enc st off (zeros n)) = st.
+Proof.
+  induction st as [|x st IH]; intros off n; [reflexivity|].
+  destruct off as [|o].
+  - destruct n as [|n]; [reflexivity|]. unfold zeros. cbn [repeat upd_at]. unfold bf_enc at 1.
+    specialize (IH 0 n). unfold zeros in IH.
+    destruct (upd_at bf_enc st 0 (repeat 0%N n)) as [s2 o2]. cbn [fst] in *. rewrite N.lxor_0_r. now subst.
+  - cbn [upd_at]. specialize (IH o n). destruct (upd_at bf_enc st o (zeros n)) as [s2 o2]. cbn [fst] in *. now subst.
+Qed.
+
+(* the number of zero bytes up to the next block boundary *)
+Definition pad_len (s : xof_state) : nat := if x_count s =? 0 then 0 else rin - x_count s.
+
+(* C03 / C07: in the absorb phase, pad() is absorbing zero bytes up to the next
+   block boundary (as the header documents it) *)
+Theorem xof_pad_zeros s : x_mode s = false -> xwf v s ->
+  xof_pad perm v s = xof_absorb perm v s (zeros (pad_len s)).
+Proof.
+  intros Hm Hw. unfold xof_pad, pad_len. rewrite Hm.
+  rewrite xof_absorb_serial by auto. destruct Hw as [Hl Hc]. rewrite Hm in Hc.
+  destruct (Nat.eqb_spec (x_count s) 0) as [e|ne].
+  - cbn. destruct s; cbn in *. now subst.
+  - assert (Z : zeros (rin - x_count s) <> []).
+    { unfold zeros. destruct (rin - x_count s) eqn:E; [lia|discriminate]. }
+    rewrite (serial_close bf_enc pb rin 40 ri0 ri40 (x_st s) (x_count s) (zeros (rin - x_count s)) Z);
+      [|unfold zeros; rewrite repeat_length; lia|exact Hl].
+    cbn [fst snd]. now rewrite upd_at_enc_zeros.
+Qed.
+
+(* in the squeeze phase pad() starts a new absorb phase, exactly like an empty absorb call *)
+Theorem xof_pad_squeezing s : x_mode s = true -> xof_pad perm v s = xof_absorb perm v s [].
+Proof. intros Hm. unfold xof_pad. now rewrite Hm. Qed.
+
 (* ---- squeezing ---------------------------------------------------------- *)
 
 Definition sq_serial (sp : bytes * nat) (n : nat) : (bytes * nat) * bytes :=
@@ -208,6 +243,23 @@ Proof.
   assert (Lp : length (sepf v (xor_at s1 pos [0x80%N])) = 40) by now rewrite sepf_len, xor_at_len.
   pose proof (sq_serial_spec (sepf v (xor_at s1 pos [0x80%N])) (fold_right Nat.add 0 outs) Lp) as Q.
   destruct (xv_lazy v); exact Q.
+Qed.
+
+(* a history with pad() between absorb calls: absorb pre ; pad ; absorb post ; squeeze outs
+   is the specification's output for  concat pre ++ 0^k ++ concat post,  k the distance to the next block boundary *)
+Theorem xof_run_pad_spec S0 pre post outs : length S0 = 40 ->
+  let s1 := fold_left (xof_absorb perm v) pre (mk S0) in
+  xof_run perm v (xof_pad perm v s1) post outs =
+  spec_squeeze pb rout (absorb_msg perm v S0 (concat pre ++ zeros (pad_len s1) ++ concat post)) (fold_right Nat.add 0 outs).
+Proof.
+  intros Hl s1.
+  assert (W0 : xwf v (mk S0)) by (split; cbn; auto; apply ri0).
+  assert (E1 : s1 = xof_absorb perm v (mk S0) (concat pre)) by (unfold s1; now rewrite xof_absorb_chunks).
+  pose proof (xof_absorb_wf (mk S0) (concat pre) eq_refl W0) as [W1 M1]. rewrite <- E1 in W1, M1.
+  rewrite (xof_pad_zeros s1 M1 W1).
+  transitivity (xof_run perm v (mk S0) (pre ++ [zeros (pad_len s1)] ++ post) outs).
+  - unfold xof_run. rewrite !fold_left_app. reflexivity.
+  - rewrite xof_run_spec by exact Hl. rewrite !concat_app. cbn [concat]. now rewrite app_nil_r.
 Qed.
 
 (* ---- initial states ------------------------------------------------------- *)
